@@ -159,6 +159,26 @@ fn main() {
                         ev.emit(json!({"k": kind, "ts": now_ns(), "key": k, "id": id}));
                     }
                 }
+                // a barrier that can be passed more than once (the same command listed twice in one run): on its n-th
+                // execution the script announces `<name>-<n>` and waits for `<peer>-<n>` of every peer
+                "arrive" => {
+                    let cf = dir.join("markers").join(format!("count-{}-arrive", k));
+                    let n: usize = std::fs::read_to_string(&cf).ok().and_then(|s| s.trim().parse().ok()).unwrap_or(0) + 1;
+                    let _ = std::fs::write(&cf, format!("{}", n));
+                    let _ = std::fs::write(markers.join(format!("{}-{}", step["name"].as_str().unwrap_or("arrive"), n)), b"");
+                    let paths: Vec<PathBuf> = step["peers"]
+                        .as_array()
+                        .cloned()
+                        .unwrap_or_default()
+                        .iter()
+                        .map(|p| markers.join(format!("{}-{}", p.as_str().unwrap_or(""), n)))
+                        .collect();
+                    let ok = wait_for(&paths, false, step["timeout_ms"].as_u64().unwrap_or(10_000));
+                    if !ok {
+                        let kind = step["on_timeout"].as_str().unwrap_or("wait_timeout");
+                        ev.emit(json!({"k": kind, "ts": now_ns(), "key": k, "id": id}));
+                    }
+                }
                 "close_output" => {
                     // detach from the capture pipes: the reader tasks see EOF while the process lives on
                     unsafe {
@@ -172,6 +192,18 @@ fn main() {
                 }
                 "exit" => {
                     code = step["code"].as_i64().unwrap_or(0) as i32;
+                    break;
+                }
+                // exit with codes[n] on the n-th execution of this script (the same command listed twice in one run)
+                "exit_by_count" => {
+                    let cf = dir.join("markers").join(format!("count-{}-exit", k));
+                    let n: usize = std::fs::read_to_string(&cf).ok().and_then(|s| s.trim().parse().ok()).unwrap_or(0);
+                    let _ = std::fs::write(&cf, format!("{}", n + 1));
+                    if let Some(codes) = step["codes"].as_array() {
+                        if !codes.is_empty() {
+                            code = codes[n.min(codes.len() - 1)].as_i64().unwrap_or(0) as i32;
+                        }
+                    }
                     break;
                 }
                 // run another program (inheriting this process's environment), wait for it, record its exit status
